@@ -407,4 +407,26 @@ def gen_scenarios(rng):
         ops.append({"op": "manage", "now": now, "kind": "requeue_dead", "ids": ["d0", "d%d" % (n - 1)]})
         ops.append({"op": "stats", "now": now})
         hs.append({"cfg": cfg, "ops": ops, "snap_every": 1, "c13_ok": True})
+    # S6: a full queue refuses an enqueue, then the queued messages age out of retention: the very next enqueue (no other call in
+    #     between) prunes first and must be admitted; same with a batch, and under drop_oldest (nothing may be evicted then)
+    for k in range(3):
+        depth = rng.choice([1, 2, 3])
+        age = rng.choice([5 * SEC, 30 * SEC])
+        cfg = _cfg0(max_depth=depth, drop_oldest=(k == 2), ret_age=age, prune_iv=rng.choice([SEC, 2 * SEC]))
+        now = BASE + rng.randrange(1000) * SEC
+        ops = []
+        for i in range(depth):
+            now += SEC
+            ops.append({"op": "enqueue", "now": now, "enq": [_enq("f%d" % i, body=60 + i)]})
+        now += SEC
+        ops.append({"op": "enqueue", "now": now, "enq": [_enq("over", body=69)]})          # refused (or evicts, under drop_oldest)
+        now += age + rng.choice([SEC, 3 * SEC])
+        if k == 1:
+            ops.append({"op": "enqueue_batch", "now": now, "enq": [_enq("late%d" % j, body=70 + j) for j in range(depth)]})
+        else:
+            ops.append({"op": "enqueue", "now": now, "enq": [_enq("late", body=70)]})
+        now += SEC
+        ops.append({"op": "enqueue", "now": now, "enq": [_enq("late-b", body=71)]})
+        ops.append({"op": "stats", "now": now})
+        hs.append({"cfg": cfg, "ops": ops, "snap_every": 1, "c13_ok": True})
     return hs
